@@ -22,6 +22,16 @@ PROPS = {
         "assumptions": ROUTER_ASSUMPTIONS,
         "min_outcomes": 6,
     },
+    "C04": {
+        "level": "model_checking",
+        "technique": "explicit enumeration of all application trees of a bounded grammar and all requests of a path alphabet; the per-request fang trace of the real router is compared with the onion order computed from the tree",
+        "engine": "vmc",
+        "level_text": "Bounded exhaustive exploration of configuration x input space: application trees of 4 shapes (single, parent-child, two children, three levels) over mount prefixes {/a, /a/b, /:p, /b}, 0..2 fangs per application (hand-written Fang/FangProc and FangAction), own-route menus incl. local fangs, both Ohkami::new and Ohkami::with, a blocking fang at every position, a sweep of every fang tuple arity 0..8 and local-fang arity 0..4; every path of depth <=3 (quick) / <=4 (thorough) over {a,b,x,y,z} with and without trailing slash, 5 methods. Every case runs on the real registration/finalization/dispatch code.",
+        "level_note": "Trusted: the order computed from the description (enclosing applications by mount-prefix match, declaration order, local fangs, reverse on the way out) and the C01 reference matcher for hit/miss. Requests whose routing the C01 statement leaves open are counted as ambiguous. Only trees satisfying the statement's precondition (no overlap between a mount prefix and a sibling route or mount) are generated.",
+        "jobs": {"quick": 16, "thorough": 16},
+        "assumptions": ROUTER_ASSUMPTIONS,
+        "min_outcomes": 6,
+    },
     "C20": {
         "level": "exploration",
         "technique": "exhaustive enumeration of structured input families against an independent reference (bounded model checking of a pure function)",
